@@ -319,6 +319,12 @@ func isOrderedByIndex(plan planNode) bool {
 		return false
 	}
 
+	// Deleted documents are not in the index: they are read by a second fetcher and appended to
+	// the documents that come out of the index, so the combined sequence is not in index order.
+	if scan.showDeleted {
+		return false
+	}
+
 	ok, _ := fetcher.CanBeOrderedByIndex(scan.ordering, scan.index.Value(), scan.documentMapping)
 	return ok
 }
